@@ -20,6 +20,9 @@ Opt = _Opt.create()
 eff = z3.Function("eff", paths.PATH, Opt)     # class of the nearest marked ancestor-or-self (spec, recursive)
 
 WHILE_KEY = "luqum.naming.HTMLMarker.mark_node#while0"
+# the loop may live in mark_node or in a private helper of the marker
+import re as _re
+MARK_LOOPS = _re.compile(r"luqum\.naming\.HTMLMarker\.\w+#while\d+")
 
 
 def opt(v):
@@ -153,11 +156,11 @@ def mark_node_cases():
             node.__dict__.update(vf_path=path, vf_ok=ok)
             pre = (node.head, node.tail)
             cut = MarkCut(mode, path, ok, ko, m)
-            rewrite.WHILE_CUTS[WHILE_KEY] = cut
+            rewrite.WHILE_CUT_PATTERNS.append((MARK_LOOPS, cut))
             try:
                 r = m.mark_node(node, path, ok, ko, True)
             finally:
-                rewrite.WHILE_CUTS.pop(WHILE_KEY, None)
+                rewrite.WHILE_CUT_PATTERNS.remove((MARK_LOOPS, cut))
             c = css_spec(path, ok, ko, m)
             if cut.entered == 0:
                 # the loop is only reached for a marked node
